@@ -1377,6 +1377,7 @@ func (fr *frame) enterLoop(li *loopInfo, st *State, reach string) *State {
 		v := fr.unconstrained(p.Type(), "phi."+p.Comment+"@loop", ns, reach)
 		fr.vals[p] = v
 	}
+	li.locksAtHead = u.heapGet(ns, "GH:locks", "(Array Int Int)")
 	// 3. assume invariants
 	hv := func(p *ssa.Phi) *Val { return fr.vals[p] }
 	for _, c := range invs {
@@ -1514,6 +1515,13 @@ func (fr *frame) loopBack(li *loopInfo, from *ssa.BasicBlock, st *State) {
 		}
 		t := fr.evalSpec(c, args, st, nil)
 		u.oblige(fr.obName("inv-step", fmt.Sprintf("loop%d.%s", li.ordinal, c.Label)), "inv-step", c.Tags, ec, t, fr.pos(h.Instrs[0].Pos()), c.Text)
+	}
+	// locks: an iteration hands back every lock it took (a `defer Unlock()` inside a loop body runs at function exit, not at
+	// the end of the iteration - the second iteration then locks what the first still holds)
+	if u.locksUsed && li.locksAtHead != "" {
+		u.oblige(fr.obName("lock-balanced", fmt.Sprintf("loop%d", li.ordinal)), "lock", []string{"C20", "C19"}, ec,
+			fmt.Sprintf("(= %s %s)", u.heapGet(st, "GH:locks", "(Array Int Int)"), li.locksAtHead), fr.pos(h.Instrs[0].Pos()),
+			"every lock taken in a loop iteration is released before the next one starts")
 	}
 }
 
